@@ -63,7 +63,7 @@ def run(ctx):
     n = 900 if tier == "quick" else 20000
     scen = ["fees", "fees", "dup", "dup", "multi", "ephemeral", "ff", "single", "malformed", "aggsig", "announce"]
     g, cases, consts_hex, valid = condlib.make_cases(rng.fork("cases"), n, scen,
-                                                     tweak=lambda c, r: c.__setitem__("flags", c["flags"] | 0x10000))
+                                                     tweak=lambda c, r: c.__setitem__("flags", c["flags"] | 0x10000), matrix=True)
     # a few very large bundles whose totals exceed 64 bits
     import condgen
     big = []
